@@ -422,6 +422,14 @@ func (c11) Eval(t *testing.T, c *Case, dec func(int) *Decider) *Outcome {
 			o.Stats.probe("real-broken-pipe-run")
 		}
 		realBrokenPipe = brokenPipe
+		// in 4% of the runs the signal arrives while a statement runs that does not look at its context
+		// for several seconds (an external command): csvq ends when that statement ends - and cleans up
+		realStallSignal = ""
+		if rs := Sub(c.Seed, "realstall"); !brokenPipe && preload == 0 && rs.Bool(0.04) {
+			realStallSignal, realStallAfter = rs.PickS("TERM", "INT", "QUIT"), rs.Intn(64)
+			spec = "no.such.point#1:INT"
+			o.Stats.probe("real-signal-during-external-command")
+		}
 		dir, code, stderr, err := realSignalRun(bin, sc, p, spec, preload)
 		o.RealProc++
 		if err != nil && strings.Contains(err.Error(), "did not terminate within") {
@@ -587,6 +595,12 @@ func outputsShort(res *RunResult) []string {
 // realBrokenPipe: the next real-process run gets a standard output nobody reads.
 var realBrokenPipe bool
 
+// realStallSignal / realStallAfter: see realSignalRun (set per evaluation, like realBrokenPipe)
+var (
+	realStallSignal string
+	realStallAfter  int
+)
+
 func realSignalRun(bin string, sc *Scenario, p int, spec string, preload int) (DirState, int, string, error) {
 	setupBase()
 	dir, err := os.MkdirTemp(BaseDir, "real11-")
@@ -613,6 +627,18 @@ func realSignalRun(bin string, sc *Scenario, p int, spec string, preload int) (D
 			program = "VAR @nothing_left := 1;"
 		}
 		cwd = dir
+	}
+	if realStallSignal != "" {
+		// a statement that does not notice the cancellation for a while: an external command that sends the
+		// signal to csvq and then keeps running for 4 s, placed after the k-th statement of the program
+		script := filepath.Join(dir, "stall.sh")
+		if err := os.WriteFile(script, []byte("kill -"+realStallSignal+" $PPID\nsleep 4\n"), 0o755); err != nil {
+			return nil, 0, "", err
+		}
+		lines := strings.Split(program, "\n")
+		k := realStallAfter % (len(lines) + 1)
+		lines = append(lines[:k:k], append([]string{"$ sh " + script + ";"}, lines[k:]...)...)
+		program = strings.Join(lines, "\n")
 	}
 	cmd := exec.Command(bin, "--repository", dir, "--quiet", "--cpu", "1", "--format", "CSV", "--wait-timeout", "1", program)
 	cmd.Env = append(os.Environ(), "VERIF_PLAN="+string(plan))
@@ -646,6 +672,7 @@ func realSignalRun(bin string, sc *Scenario, p int, spec string, preload int) (D
 		}
 		st := SnapshotDir(dir)
 		delete(st, "csvqrc")
+		delete(st, "stall.sh")
 		return st, code, stderr.String(), nil
 	case <-time.After(15 * time.Second):
 		_ = cmd.Process.Kill()
